@@ -1,9 +1,13 @@
 //! Property lanes and what they share: drawing configurations (swarm style)
 //! and running one threaded operation under one configuration.
 
+pub mod c01;
 pub mod c11;
 pub mod c12;
+pub mod c14;
+pub mod c15;
 pub mod c17;
+pub mod c20;
 
 use crate::core::{Stats, Tier, Violation};
 use crate::exec::{run_exec, Conf, ExecReport, Failure};
